@@ -288,16 +288,20 @@ def angle_case(draw):
         phi = draw(st.one_of(st.sampled_from([0.0, 360.0, -180.0, 180.0, 720.5, -1e-9, 359.9999999]), uf.map(lambda v: 400 * v)))
         theta = draw(st.one_of(st.sampled_from([0.0, 180.0, 90.0, 1e-8, 180 - 1e-8, 1e-5, 179.99999, 0.005]), uf.map(lambda v: 90 * (1 + v))))
         rows.append([phi, theta])
-    return dict(rows=rows, latitude=draw(st.booleans()))
+    return dict(rows=rows, latitude=draw(st.booleans()), whole=draw(st.sampled_from([False, False, True])))
 
 
 def angle_body(case):
     from pydl.pydlutils.mangle import angles_to_x, x_to_angles
     A = np.array(case['rows'], dtype='f8')
     lat = case['latitude']
+    if case.get('whole'):
+        A = np.round(A)                  # whole degrees, handed over as an integer array
     arg = A.copy()
     if lat:
         arg[:, 1] = 90.0 - A[:, 1]       # hand over declination instead of polar angle
+    if case.get('whole'):
+        arg = arg.astype('i8')
     X = call(angles_to_x, arg, latitude=lat)
     with judge('angles_to_x'):
         check(X.shape == (len(A), 3), 'angles_to_x:shape')
@@ -325,7 +329,7 @@ def angle_body(case):
 
 
 def angle_classify(case):
-    out = ['latitude' if case['latitude'] else 'polar-angle']
+    out = ['latitude' if case['latitude'] else 'polar-angle', 'integer-angles' if case.get('whole') else 'float-angles']
     if any(min(r[1], 180 - r[1]) < 0.01 for r in case['rows']):
         out.append('near-pole')
     if any(r[0] < 0 or r[0] >= 360 for r in case['rows']):
